@@ -17,7 +17,7 @@ def one(patch):
 def main():
     patches = []
     for d in sys.argv[1:]:
-        patches += sorted(glob.glob(os.path.join(d, "r*", "patch.diff"))) if os.path.isdir(d) else [d]
+        patches += sorted(glob.glob(os.path.join(d, "[re]*", "patch.diff"))) if os.path.isdir(d) else [d]
     with ThreadPoolExecutor(3) as ex:
         for patch, r in ex.map(one, patches):
             name = "/".join(patch.split("/")[-3:-1])
